@@ -50,6 +50,56 @@ def check(ck):
               'ones held by the child, read through the property',
               c06.r06_1, c16.r16_7)
     H.hierarchy_depth_shape(ck, 'R15.11')
+    r15_13(ck)
+
+
+def r15_13(ck):
+    ck.rule('R15.13', 'the composite state visits processes AND steps: a '
+            'nested branch that exists in both dictionaries is descended '
+            'into with both sub-dictionaries (the recursive call receives '
+            'the processes found under the key and the steps found under '
+            'the key), so initial values contributed only by steps of a '
+            'nested compartment are not lost')
+    f = ck.fn('_get_composite_state_recur', 'core.composer')
+    ps = A.params_of(f.node)
+    procs, steps = ps[0], ps[1]
+    rec = [c for c in A.calls_in(f.node, f.node.name)]
+    ck.require(bool(rec), 'R15.13', f, f.node.name,
+               'nested branches are descended into recursively', None)
+
+    def lookup_of(param):
+        def pred(x):
+            return (isinstance(x, ast.Call) and A.call_name(x) == 'get'
+                    and A.is_name(A.call_receiver(x), param)) or (
+                isinstance(x, ast.Subscript) and A.is_name(x.value, param))
+        return pred
+    for c in rec:
+        a0, a1 = A.arg_of(c, 0, procs), A.arg_of(c, 1, steps)
+        for a, param, other in ((a0, procs, steps), (a1, steps, procs)):
+            ok = a is not None and not (isinstance(a, ast.Constant)
+                                        and a.value is None) and derives(
+                f.node, a, lookup_of(param), at=c) and not derives(
+                f.node, a, lookup_of(other), at=c)
+            ck.require(ok, 'R15.13', f, c,
+                       "the recursion receives the sub-branch of '%s' as "
+                       "its %s" % (param, param),
+                       "the recursive call is handed %s as `%s`: when a "
+                       'nested branch exists under the same key in both '
+                       'the processes and the steps dictionary, one of the '
+                       'two sub-branches is not visited and the initial '
+                       'state its processes contribute is dropped' % (
+                           A.unparse(a) if a is not None else 'nothing',
+                           param), c)
+    # every key of both dictionaries is visited
+    loops = [l for l in A.walk_no_nested(f.node) if isinstance(l, ast.For)]
+    ok = any(derives(f.node, l.iter, lambda x: isinstance(x, ast.Name)
+                     and x.id == procs, at=l) and
+             derives(f.node, l.iter, lambda x: isinstance(x, ast.Name)
+                     and x.id == steps, at=l) for l in loops)
+    ck.require(ok, 'R15.13', f, loops[0] if loops else f.node.name,
+               'the keys of both dictionaries are visited',
+               'the loop of _get_composite_state_recur no longer runs over '
+               'the keys of processes and steps')
 
 
 def r15_1(ck):
@@ -387,13 +437,19 @@ def r15_6(ck):
             "_default and otherwise recurses")
     f = ck.fn('Process.default_state', 'core.process')
     inner = [x for x in ck.repo.functions if x.nested_in is f]
+    # ... or a (recursive) helper of the same module that it calls
+    called = {A.call_name(c) for c in A.calls_in(f.node)
+              if isinstance(c.func, ast.Name)}
+    inner += [x for x in ck.repo.functions
+              if x.module == f.module and x.cls is None and not x.is_test
+              and not x.nested_in and x.name in called]
     ok = False
     for g in inner:
         for c in A.calls_in(g.node, 'get'):
             if c.args and isinstance(c.args[0], ast.Constant) and \
                     c.args[0].value == '_default' and len(c.args) == 2 and \
-                    isinstance(c.args[1], ast.Call) and A.call_name(
-                        c.args[1]) == g.name:
+                    derives(g.node, c.args[1], lambda n, g=g: isinstance(
+                        n, ast.Call) and A.call_name(n) == g.name, at=c):
                 ok = True
     ck.require(ok, 'R15.6', f, f.node.name,
                "the default of a variable is its '_default', else the "
